@@ -1,7 +1,7 @@
 \* Exhaustive: every pattern and string over the alphabet up to the given lengths.
 SPECIFICATION Spec
 CONSTANTS
-  Alphabet = {97, 98, 42, 92}
+  Alphabet = @Alphabet@
   MaxPat = @MaxPat@
   MaxStr = @MaxStr@
   Deviations = @Deviations@
